@@ -14,6 +14,8 @@ import random
 
 ID = "C18"
 LEVEL = "exploration"
+SUITE_UNDER_MONITORS = True  # thorough tier: the unedited repository tests run with this property's contracts loaded
+SUITE_CONTRACTS = ("tokens_lossless",)
 REACH = {"Tokenizer.parse": "Tokenizer.parse", "Tokenizer.parse_string": "parse_string", "Tokenizer.parse_closer": "parse_closer",
          "Tokenizer.parse_opener": "parse_opener", "Tokenizer.check_scientific_notation": "check_scientific_notation"}
 ASSUMPTIONS = ["a quoted run is delimited as in DESIGN A.7: \"...\" with \"\" and '...' with '' as content, scanned left to right",
